@@ -58,7 +58,7 @@ PermSub == IF PermMode = "all" THEN SignedPerms
            ELSE {P \in SignedPerms : P[1][1] = 1 \/ (P[1][2] = 1 /\ P[2][3] = 1) \/ (P[1][3] = -1 /\ P[2][2] = -1)}
 Rots == {[n |-> MMul(P, B.n), q |-> B.q] : P \in PermSub, B \in BaseRots}
 NoRot == [n |-> Ident(1), q |-> 1]
-\* rotations of the homogeneous tensors: the base rotations (about every axis, the /3 and /7 rotations move all axes)
+\* rotations applied (to the many-cell and to the homogeneous tensors): the base rotations (about every axis, the /3 and /7 rotations move all axes)
 \* and the signed permutations alone; with PermMode = "all" every composition
 HomRots == IF PermMode = "all" THEN Rots ELSE BaseRots \cup {[n |-> P, q |-> 1] : P \in PermSub}
 CellSeqs == {s \in UNION {[1..l -> 0..(NCat - 1)] : l \in 1..NCat} : \A i, j \in 1..Len(s) : i # j => s[i] # s[j]}
@@ -70,7 +70,7 @@ Init == st = 0 /\ scen \in Scens /\ a = <<>> /\ b = FALSE
 Pick == /\ st = 0 /\ st' = 1 /\ scen' = scen
         /\ b' \in (IF Kind = "fourth" THEN BOOLEAN ELSE {FALSE})
         /\ CASE scen = "build"    -> a' \in (IF Kind = "second" THEN GivPatterns ELSE {<<>>})
-             [] scen = "rotate"   -> a' \in Rots
+             [] scen = "rotate"   -> a' \in HomRots
              [] scen = "rothom"   -> a' \in HomRots
              [] scen = "restrict" -> a' \in CellSeqs
              [] scen = "copy"     -> a' \in (IF Kind = "second" THEN {[n |-> P, q |-> 1] : P \in PermSub} ELSE {NoRot})
